@@ -821,9 +821,18 @@ static void reb_whfast512_jump_step(struct reb_simulation* r, const double _dt){
 #endif
     struct reb_integrator_whfast512* ri_whfast512 = &(r->ri_whfast512);
     struct reb_particle_avx512* p_jh = ri_whfast512->p_jh;
-    double m0 = r->particles[0].m;
-    
-    __m512d pf512 = _mm512_set1_pd(_dt/m0);
+    // Each system has its own star.
+    const unsigned int N_systems = ri_whfast512->N_systems;
+    const unsigned int p_per_system = 8/N_systems;
+    const unsigned int N_per_system = r->N/N_systems;
+    double pf[8];
+    for (unsigned int s=0; s<N_systems; s++){
+        const double m0 = r->particles[s*N_per_system].m;
+        for (unsigned int p=0; p<p_per_system; p++){
+            pf[s*p_per_system+p] = _dt/m0;
+        }
+    }
+    __m512d pf512 = _mm512_loadu_pd(pf);
     
     __m512d sumx = _mm512_mul_pd(p_jh->m, p_jh->vx);
     __m512d sumy = _mm512_mul_pd(p_jh->m, p_jh->vy);
